@@ -284,11 +284,54 @@ def reflect_handled(ctx, S):
     return handled
 
 
+def single_lookup_cases(ctx, S):
+    """every lookup kind with every name the spec knows under that kind and every name it does not (including names known under ANOTHER
+    kind), directly and through a subroutine, fold on and off: same outcome on both routes, and absent names fail on both"""
+    from bloqade.shuttle.arch import ArchSpecInterpreter
+    from bloqade.shuttle.prelude import move
+    n = 0
+    for k, (f, kw, names) in LK.items():
+        for present, nm in [(True, x) for x in names] + [(False, x) for x in ABSENT[k]]:
+            for shape in ("direct", "subroutine"):
+                for fold in (True, False):
+                    call = f'{f}({kw}="{nm}")'
+                    if shape == "direct":
+                        body = f"def root():\n    return {call}\n"
+                    else:
+                        body = f"def helper():\n    return {call}\n\n@move{{DEC}}\ndef root():\n    return helper()\n"
+                    src = "@move" + ("" if shape == "direct" else "") + ("{DEC}\n" if shape == "direct" else "\n") + body
+                    ctx.evaluations += 1
+                    n += 1
+                    rep = {"lookup_src": src, "fold": fold, "name_known_under_this_kind": present}
+                    try:
+                        a = ("ok", kernels.define(src.replace("{DEC}", f"(arch_spec=S, fold={fold})"), S=S)["root"]())
+                    except Exception as e:
+                        a = ("err", type(e).__name__)
+                    try:
+                        b = ("ok", ArchSpecInterpreter(move, arch_spec=S).run(kernels.define(src.replace("{DEC}", ""), S=S)["root"], ()))
+                    except Exception as e:
+                        b = ("err", type(e).__name__)
+                    ta = show_value(a[1], S) if a[0] == "ok" else "ERR"
+                    tb = show_value(b[1], S) if b[0] == "ok" else "ERR"
+                    if ta != tb:
+                        ctx.fail({"kind": "behaviour-differs", "lookup": k, "name_known": present, "shape": shape}, rep,
+                                 f"{call} ({shape}, fold={fold}): the compiled kernel gives {ta[:60]}, the unspecialised kernel against the spec gives {tb[:60]}")
+                    elif not present and ta != "ERR":
+                        ctx.fail({"kind": "absent-name-given-a-value", "lookup": k, "shape": shape}, rep,
+                                 f"{call}: the spec does not know {nm!r} under this kind, yet both routes return {ta[:60]}")
+                    elif present and ta == "ERR":
+                        ctx.fail({"kind": "known-name-fails", "lookup": k, "shape": shape}, rep, f"{call}: the spec knows {nm!r}, yet both routes fail")
+                    else:
+                        ctx.nt(("single-lookup", k, nm, shape, fold))
+    ctx.count("single lookups: kind x known/absent name x direct/subroutine x fold", n)
+
+
 def run(ctx):
     from bloqade.shuttle.arch import ArchSpecInterpreter
     from bloqade.shuttle.prelude import move
     S = c06_spec()
     handled = reflect_handled(ctx, S)
+    single_lookup_cases(ctx, S)
     ctx.rule = ("tables of 2-4 @move kernels (root + subroutines, some recursive with a depth parameter, closures capturing looked-up values, "
                 "closures returned from recursive subroutines and called by the root) mixing the four lookup kinds (6% absent names) with "
                 "constants, tuples, variables; root compiled with arch_spec (fold on and off) and called through ir.Method.__call__ (plain "
@@ -497,6 +540,21 @@ def decorator_histories(ctx, S):
 
 def replay(data):
     inp = data["input"]
+    if "lookup_src" in inp:
+        from bloqade.shuttle.arch import ArchSpecInterpreter
+        from bloqade.shuttle.prelude import move
+        S = c06_spec()
+        src = inp["lookup_src"]
+        try:
+            a = show_value(kernels.define(src.replace("{DEC}", f"(arch_spec=S, fold={inp['fold']})"), S=S)["root"](), S)
+        except Exception:
+            a = "ERR"
+        try:
+            b = show_value(ArchSpecInterpreter(move, arch_spec=S).run(kernels.define(src.replace("{DEC}", ""), S=S)["root"], ()), S)
+        except Exception:
+            b = "ERR"
+        known = inp["name_known_under_this_kind"]
+        return a != b or (not known and a != "ERR") or (known and a == "ERR"), f"compiled: {a[:60]}; spec interpreter: {b[:60]}"
     if "history_src" in inp:
         S, S2 = c06_spec(), moved_spec()
         specs = {"A": S, "B": S2}
